@@ -69,11 +69,36 @@ P = {
 }
 
 
+COMMON_LATER = (" All generators also draw from the integer literals of the tree under test (vmon/srcdict.py; literals new against the recorded baseline are preferred and combined), "
+                "codes that mean something to a device, and values related to one another (equal / adjacent / double).")
+LATER = {
+    "C01": " Rounds 9-10: ghost commands with other values, allocation lengths the process has no memory for, allocation lengths 0..40 x every small-field value.",
+    "C03": " Rounds 9-10: units announcing the largest lengths, WRITE SAME blocks with protection information, all ATA protocol flags around new literals.",
+    "C04": " Rounds 9-10: pages without a field table asked for alone, the power condition page, IDENTIFY data with valid / wrong integrity words.",
+    "C05": " Rounds 9-10: iSCSI names of 13-15 bytes (led to fix e4bbb63), identification descriptors from decoded designator dictionaries, facades with their own block size.",
+    "C06": " Rounds 9-10: user subclasses with own tables, dictionaries in any key order at every level.",
+    "C07": " Rounds 9-10: the binding itself raising (every errno), CHECK CONDITION without sense data, failing logouts, polling loops, every facade method x every condition initiators act on x sense forms with field pointers.",
+    "C08": " Rounds 9-10: conditions in boolean contexts; new literals as ASC/ASCQ pairs with every key, format and length.",
+    "C09": " Rounds 9-10: re-entrant builds inside builds, shared argument objects under two preemptions, nine hash seeds, commands written directly on SCSICommand, odd responses decoded first in a fresh interpreter and again after well-formed ones, builds repeated after decodes.",
+    "C10": " Rounds 9-10: layouts edited in place, records supplying some fields among up to 120 other entries, encode targets of five buffer kinds.",
+    "C11": " Rounds 9-10: processor-time scaling up to 2 MiB and a factor of 16 for crafted orderings, format-hostile texts, structures for decoders of newly named codes on every enumerated page code.",
+    "C12": " Rounds 9-10: LBAs uniform in magnitude, prepared READ CAPACITY / INQUIRY objects re-sent while the unit grows.",
+    "C13": " Rounds 9-10: application sessions against the target model with arguments derived from the unit's answers and injected conditions; private tables with T10-named group entries.",
+    "C14": " Rounds 9-10: OpCode subclasses whose value is computed.",
+    "C15": " Rounds 9-10: a process without standard input, BaseException exits, commands with data phases, nodes moved aside / hard-linked, thousands of quiet commands before the event.",
+    "C16": " Rounds 9-10: interrupted attaches, character special nodes, every type x qualifier x INQUIRY length x legacy flag bytes.",
+    "C17": " Rounds 9-10: near-miss names, application subclasses with a mix-in first, texts of one EXTENDED COPY table used for another.",
+    "C18": " Rounds 9-10: values whose __eq__/__hash__/__repr__ raise, parameter-like names, str names with attributes of their own, sibling-type lookups.",
+    "C19": " Rounds 9-10: every import spelling in fresh interpreters, devices that are context managers of their own, pickled devices loaded without bindings.",
+}
+
+
 def main():
     checks = []
     na = []
     for pid in sorted(P):
         lvl, tech, text, note, ref = P[pid]
+        text = text + LATER.get(pid, "") + COMMON_LATER
         if os.path.exists(os.path.join(ROOT, "vmon", "props", pid.lower() + ".py")):
             checks.append({
                 "property_id": pid,
